@@ -45,6 +45,10 @@ def _fm(tens, box, op_shape4D, tile_off, sid, get_region, arch, stride_mult=None
 def extract(nng, arch, res):
     from ethosu.vela.nn_graph import PassPlacement
     from ethosu.vela.high_level_command_stream import NpuStripe, DMA
+    try:
+        from ethosu.vela.high_level_command_stream import NOP
+    except ImportError:            # older trees have no NOP command
+        NOP = ()
     from ethosu.vela.high_level_command_to_npu_op import get_region
     from ethosu.vela.tensor import TensorPurpose
     from ethosu.vela.weight_compressor import WeightKey
@@ -55,6 +59,8 @@ def extract(nng, arch, res):
             continue
         sid = _ids()
         cmds = []
+        aliases = []
+        pids = {}
         init = {}
 
         def add_init(t, region=None):
@@ -82,11 +88,27 @@ def extract(nng, arch, res):
                         add_init(it)
                 cmds.append(d)
                 continue
+            if NOP and isinstance(cmd, NOP):
+                # a feature-map copy that the compiler elided because source and destination have the same address in the
+                # same memory area: from here on the bytes of in_tensor *are* out_tensor.  No NPU operation is emitted, so it
+                # is recorded beside the command list (position = index of the next emitted command).
+                it, ot = cmd.in_tensor, cmd.out_tensor
+                if it.address is not None and ot.address is not None:
+                    aliases.append({"before": len(cmds), "name": cmd.ps.name,
+                                    "in": {"sid": sid(it), "addr": int(it.address), "size": int(it.storage_size()),
+                                           "region": int(get_region(it.mem_type, arch)), "name": it.name},
+                                    "out": {"sid": sid(ot), "addr": int(ot.address), "size": int(ot.storage_size()),
+                                            "region": int(get_region(ot.mem_type, arch)), "name": ot.name}})
+                    if it.mem_type.name.startswith("Permanent"):
+                        add_init(it)
+                continue
             if not isinstance(cmd, NpuStripe):
                 continue
             ps = cmd.ps
             op = ps.primary_op
-            d = {"type": "stripe", "name": ps.name, "op": op.type.name, "orig": op.original_type.name if op.original_type else None,
+            # pass names are not unique (every average pool a SPLIT / UNPACK is lowered to carries the same name):
+            # "pid" numbers the distinct passes of the subgraph in first-seen order
+            d = {"type": "stripe", "name": ps.name, "pid": pids.setdefault(id(ps), len(pids)), "op": op.type.name, "orig": op.original_type.name if op.original_type else None,
                  "first_h": bool(cmd.is_first_h_stripe), "last_h": bool(cmd.is_last_h_stripe)}
             d["ifm"] = _fm(cmd.ifm_tensor, cmd.ifm_box, ps.ifm_shapes[0], op.tile_base_offsets_ifm[0][0], sid, get_region, arch)
             if cmd.ifm2_tensor is not None and len(ps.ifm_shapes) > 1:
@@ -95,6 +117,10 @@ def extract(nng, arch, res):
                            op.ofm_stride_multiplier, True)
             for key, t in (("ifm", cmd.ifm_tensor), ("ifm2", cmd.ifm2_tensor)):
                 if t is not None and t.shape != [] and t.mem_type.name.startswith("Permanent"):
+                    add_init(t)
+                elif t is not None and t.shape != [] and getattr(t, "is_variable", False):
+                    # TFLite variable tensor (LSTM state): allocated and zeroed by the runtime before the first
+                    # invocation and persistent between invocations, i.e. defined on entry like a subgraph input
                     add_init(t)
             if cmd.weight_tensor is not None:
                 wt = cmd.weight_tensor
@@ -152,6 +178,6 @@ def extract(nng, arch, res):
             d["stride_mult"] = [int(v) for v in op.ofm_stride_multiplier]
             cmds.append(d)
         out.append({"name": sg.name, "words": [int(w) for w in sg.register_command_stream], "cmds": cmds,
-                    "init": list(init.values()), "accel": arch.accelerator_config.value,
+                    "aliases": aliases, "init": list(init.values()), "accel": arch.accelerator_config.value,
                     "lut_base": int(arch.shram_lut_address), "ncores": int(arch.ncores)})
     return out
